@@ -19,7 +19,8 @@ class C09(Prop):
             "baseline exported data; distinct = (scenario, variant)")
     reach = ["perm", "crlf", "deco", "upper", "dsb_only_no_s", "dsb_split", "dsb_between_packets", "both", "no_final_newline", "dsb_no_final_newline", "both_partial_file", "dsb_plus_comment_only_dsb", "dsb_before_idb", "dsb_with_tsoffset", "quic_world",
              "other_cwd", "long_file_line_across_block_boundary",
-             "dsb_per_connection_before_its_first_packet"]
+             "dsb_per_connection_before_its_first_packet", "dsb_per_connection_behind_client_hello", "dsb_big_endian",
+             "dsb_section_followed_by_empty_section"]
 
     def plan(self, tier):
         p = super().plan(tier)
@@ -64,6 +65,9 @@ class C09(Prop):
                                                       "crlf": V.chance(30)}],
         ]
         variants.append(["dsb_per_connection_before_its_first_packet", {"mode": "dsb", "dsb_per_conn": True}])
+        variants.append(["dsb_per_connection_behind_client_hello", {"mode": "dsb", "dsb_per_conn": "after_first_flight"}])
+        variants.append(["dsb_section_followed_by_empty_section", {"mode": "dsb", "dsb": [[0, 0]], "trailing_section": True}])
+        variants.append(["dsb_big_endian", {"mode": "dsb", "dsb": [[0, 0], [0, 1]], "be": True, "perm_seed": V.bits(30)}])
         if not has_quic:
             npk = 60
             variants.append(["dsb_between_packets", {"mode": "dsb", "dsb": [[V.range(0, npk), 0], [V.range(0, npk), 1]]}])
@@ -111,7 +115,11 @@ class C09(Prop):
                 out.count("enumeration_truncated_by_budget")
                 break
             s2 = copy.deepcopy(spec)
-            s2["keychan"] = {k: v for k, v in kc.items() if k not in ("cwd", "before_idb", "tsoffset")}
+            s2["keychan"] = {k: v for k, v in kc.items() if k not in ("cwd", "before_idb", "tsoffset", "be", "trailing_section")}
+            if kc.get("be"):
+                s2["container"] = dict(s2.get("container", {}), be=True)
+            if kc.get("trailing_section"):
+                s2["container"] = dict(s2.get("container", {}), trailing_section=True)
             if kc.get("tsoffset"):
                 # the interface's if_tsoffset must not matter for key delivery (timestamps stay the same instants)
                 s2["container"] = dict(s2.get("container", {}), tsoffset=kc["tsoffset"])
